@@ -216,7 +216,13 @@ func (ch *c08Child) writeHt(f int, h c08Ht) {
 	if h.Bad {
 		sb.WriteString("this line has no separator\n")
 	}
+	before, errB := os.Stat(p)
 	os.WriteFile(p, []byte(sb.String()), 0o644)
+	// a rewritten file is a new version of the file: it never keeps both the modification time and the
+	// size of the old one (two writes within one tick of a coarse file-system clock would)
+	if after, err := os.Stat(p); errB == nil && err == nil && after.Size() == before.Size() && after.ModTime().Equal(before.ModTime()) {
+		os.Chtimes(p, time.Now(), before.ModTime().Add(time.Millisecond))
+	}
 }
 
 var c08Events = []string{"startup", "shutdown", "certrenew"}
